@@ -45,7 +45,7 @@ def task(args):
     from afqmc_lint.runner import analyse
     try:
         rep = analyse(pid, REPO, ov, "quick")
-        v = rep.violations
+        v = rep.unlisted()          # known findings (printed as KNOWN-FINDING, exit 0) are not alarms
         if not v:
             return sid, pid, 0, [], ""
         rules = []
